@@ -291,10 +291,14 @@ def shard(ctx, payload):
         ctx.label('pair-' + (clause or 'text-key-only'))
         if nontrivial(a) or nontrivial(b):
             ctx.nontrivial(('pair', a, b))
+    LONG = ['100000', '20000', '30000', '200000', '50000', '1000000', '99999', '100001', '250000W', '30000W', '42195',
+            '4x100000', '4x20000', '1500', '10000', '123456H', '2000H', '400H']
     for i in range(nlists):
         n = rng.randrange(0, 13)
         items = []
         pool = [code() for _ in range(max(1, n // 2))]
+        if i % 4 == 0:          # distances of 100 km and more next to shorter ones: the sorter follows the TUPLE key
+            pool = rng.sample(LONG, min(len(LONG), max(2, n // 2 + 1)))
         for _ in range(n):
             form = rng.choice(['dict', 'dict', 'obj', 'obj', 'dict-missing', 'obj-missing'])
             d = rng.choice(pool + [None, ''])
